@@ -386,6 +386,11 @@ func main() {
 			}
 		}
 	}
+	for i, ua := range eng.unboundedAllocs {
+		if i < 5 {
+			o.Problems = append(o.Problems, "unbounded allocation: the path condition does not bound "+ua+" (only the smallest sizes were explored)")
+		}
+	}
 	if timedOut {
 		o.Problems = append(o.Problems, fmt.Sprintf("walltime: exploration stopped after %ds with %d paths done", *wallMax, eng.stats.Paths))
 	}
